@@ -202,6 +202,12 @@ CORES = [
     ("lexical", "from t | @I@filter a == 'abc"),
     ("lexical", "from t | @I@select €"),
     ("lexical", "from t | @I@select a ? b"),
+    # lexer errors located at the END of the input (the span is empty and sits at the last character)
+    ("lexical", "from t | @I@select `name"),
+    ("lexical", "from t | @I@select r\"abc"),
+    ("lexical", "from t | @I@select f\"{a"),
+    ("lexical", "from t | @I@select s\"{"),
+    ("lexical", "from t | @I@filter a == \"\"\"abc"),
     ("syntactic", "from t | @I@select )"),
     ("syntactic", "from t | @I@select {a,, b}"),
     ("syntactic", "from t | @I@derive x = = 2"),
